@@ -936,3 +936,215 @@ func NilReturns(fn *ssa.Function) (nilRets []*ssa.Return, other []*ssa.Return) {
 	}
 	return
 }
+
+// FlowsTo reports whether value v can flow, through conversions, phis,
+// variadic packing, error-wrapping calls (a call taking the value as an
+// argument and returning an error) and local cells, into an instruction
+// accepted by sink. The search is a forward slice over referrers within the
+// function (bounded).
+func FlowsTo(v ssa.Value, sink func(ssa.Instruction, ssa.Value) bool) bool {
+	seen := map[ssa.Value]bool{}
+	var visit func(x ssa.Value, depth int) bool
+	visit = func(x ssa.Value, depth int) bool {
+		if x == nil || seen[x] || depth > 12 {
+			return false
+		}
+		seen[x] = true
+		refs := x.Referrers()
+		if refs == nil {
+			return false
+		}
+		for _, r := range *refs {
+			if sink(r, x) {
+				return true
+			}
+			switch y := r.(type) {
+			case *ssa.Phi:
+				if visit(y, depth+1) {
+					return true
+				}
+			case *ssa.MakeInterface:
+				if visit(y, depth+1) {
+					return true
+				}
+			case *ssa.ChangeInterface:
+				if visit(y, depth+1) {
+					return true
+				}
+			case *ssa.ChangeType:
+				if visit(y, depth+1) {
+					return true
+				}
+			case *ssa.Extract:
+				if visit(y, depth+1) {
+					return true
+				}
+			case *ssa.Store:
+				if y.Val != x {
+					continue
+				}
+				switch a := y.Addr.(type) {
+				case *ssa.IndexAddr: // varargs packing: continue from the backing array's slices
+					if al, ok := a.X.(*ssa.Alloc); ok {
+						if ar := al.Referrers(); ar != nil {
+							for _, rr := range *ar {
+								if sl, ok := rr.(*ssa.Slice); ok {
+									if visit(sl, depth+1) {
+										return true
+									}
+								}
+							}
+						}
+					}
+				case *ssa.Alloc: // local cell: continue from the loads the store reaches
+					for _, l := range ReachingLoads(y) {
+						if visit(l, depth+1) {
+							return true
+						}
+					}
+				}
+			case *ssa.Call:
+				// wrapper: value passed as argument, call returns an error
+				isArg := false
+				for _, a := range y.Call.Args {
+					if a == x {
+						isArg = true
+					}
+				}
+				if isArg && y.Call.Signature().Results().Len() >= 1 {
+					res := y.Call.Signature().Results()
+					if types.Identical(res.At(res.Len()-1).Type(), errorType) {
+						if res.Len() == 1 {
+							if visit(y, depth+1) {
+								return true
+							}
+						} else if e := ErrResult(y); e != nil && visit(e, depth+1) {
+							return true
+						}
+					}
+				}
+			}
+		}
+		return false
+	}
+	return visit(v, 0)
+}
+
+// DerivesFrom reports whether v is computed from a value accepted by pred,
+// looking backwards through conversions, phis, slicing, composite/variadic
+// packing into local arrays, append arguments and local cells (bounded).
+func DerivesFrom(v ssa.Value, pred func(ssa.Value) bool) bool {
+	seen := map[ssa.Value]bool{}
+	var visit func(x ssa.Value, d int) bool
+	visit = func(x ssa.Value, d int) bool {
+		if x == nil || seen[x] || d > 14 {
+			return false
+		}
+		seen[x] = true
+		if pred(x) {
+			return true
+		}
+		switch y := x.(type) {
+		case *ssa.Phi:
+			for _, e := range y.Edges {
+				if visit(e, d+1) {
+					return true
+				}
+			}
+		case *ssa.ChangeType:
+			return visit(y.X, d+1)
+		case *ssa.ChangeInterface:
+			return visit(y.X, d+1)
+		case *ssa.MakeInterface:
+			return visit(y.X, d+1)
+		case *ssa.Convert:
+			return visit(y.X, d+1)
+		case *ssa.Slice:
+			return visit(y.X, d+1)
+		case *ssa.Extract:
+			return visit(y.Tuple, d+1)
+		case *ssa.UnOp:
+			if y.Op == token.MUL {
+				if a, ok := y.X.(*ssa.Alloc); ok {
+					return visit(a, d+1)
+				}
+			}
+		case *ssa.Alloc:
+			if refs := y.Referrers(); refs != nil {
+				for _, r := range *refs {
+					switch z := r.(type) {
+					case *ssa.Store:
+						if z.Addr == ssa.Value(y) && visit(z.Val, d+1) {
+							return true
+						}
+					case *ssa.IndexAddr:
+						if ir := z.Referrers(); ir != nil {
+							for _, rr := range *ir {
+								if st, ok := rr.(*ssa.Store); ok && st.Addr == ssa.Value(z) && visit(st.Val, d+1) {
+									return true
+								}
+							}
+						}
+					case *ssa.FieldAddr:
+						if ir := z.Referrers(); ir != nil {
+							for _, rr := range *ir {
+								if st, ok := rr.(*ssa.Store); ok && st.Addr == ssa.Value(z) && visit(st.Val, d+1) {
+									return true
+								}
+							}
+						}
+					}
+				}
+			}
+		case *ssa.Call:
+			if b, ok := y.Call.Value.(*ssa.Builtin); ok && b.Name() == "append" {
+				for _, a := range y.Call.Args {
+					if visit(a, d+1) {
+						return true
+					}
+				}
+			}
+		}
+		return false
+	}
+	return visit(v, 0)
+}
+
+// CellUse is one use of a local variable cell, possibly inside a closure that
+// captured it.
+type CellUse struct {
+	Fn    *ssa.Function
+	Instr ssa.Instruction
+}
+
+// CellUses lists every instruction using the local cell (an Alloc), following
+// the cell into the function literals that capture it.
+func CellUses(cell ssa.Value) []CellUse {
+	var out []CellUse
+	seen := map[ssa.Value]bool{}
+	var visit func(v ssa.Value)
+	visit = func(v ssa.Value) {
+		if v == nil || seen[v] {
+			return
+		}
+		seen[v] = true
+		refs := v.Referrers()
+		if refs == nil {
+			return
+		}
+		for _, r := range *refs {
+			if mc, ok := r.(*ssa.MakeClosure); ok {
+				fn := mc.Fn.(*ssa.Function)
+				for i, b := range mc.Bindings {
+					if b == v && i < len(fn.FreeVars) {
+						visit(fn.FreeVars[i])
+					}
+				}
+				continue
+			}
+			out = append(out, CellUse{Fn: r.Parent(), Instr: r})
+		}
+	}
+	visit(cell)
+	return out
+}
